@@ -55,7 +55,14 @@ func runSolver(ctx context.Context, sp solverSpec, file string, secs int, rec bo
 	_ = cmd.Run()
 	el := time.Since(t0).Seconds()
 	text := out.String()
-	first := strings.TrimSpace(strings.SplitN(text, "\n", 2)[0])
+	first := ""
+	for _, ln := range strings.Split(text, "\n") {
+		// z3 prints pattern diagnostics before the answer (the pattern is then ignored; the answer stands)
+		if ln = strings.TrimSpace(ln); ln != "" && !strings.HasPrefix(ln, "WARNING:") {
+			first = ln
+			break
+		}
+	}
 	res := "unknown"
 	switch first {
 	case "sat", "unsat", "unknown", "timeout":
